@@ -535,7 +535,7 @@ var injectors = []struct {
 		}
 	}},
 	{"invalid-pattern", func(r *rng, g *rgrammar, v int) {
-		insertDecl(r, g, rdecl{Kind: "token", Name: "BADPAT", ValKind: "REGEX", Value: pick(r, []string{"a{3,2}", "[b-a]", "a)", "(", "x[", "a{2", "+a", "a||b", `\q`})}, v)
+		insertDecl(r, g, rdecl{Kind: "token", Name: "BADPAT", ValKind: "REGEX", Value: pick(r, []string{"a{3,2}", "[b-a]", "a)", "(", "x[", "a{2", "+a", "a||b", `\q`, ":]", "end}", "a]b}c", "]", "}", "x]", "{", "a|", "?"})}, v)
 		if v%2 == 0 {
 			appendToRule(firstRule(g, r), tokE("BADPAT"))
 		}
@@ -568,6 +568,19 @@ var injectors = []struct {
 		}
 	}},
 	{"handle-in-two-levels", func(r *rng, g *rgrammar, v int) {
+		if v%3 == 2 {
+			// a rule handle containing a group, listed in two levels, with the same alternatives used earlier under
+			// another operator (the rules come BEFORE the directives)
+			alts := func() *rexpr { return altE(strE("hp"), strE("hm")) }
+			op := pick(r, []int{xOpt, xStar, xPlus})
+			early := rdecl{Kind: "rule", Rule: &rrule{LHS: "start", RHS: catE(ntE("start"), wrapE(op, alts()), ntE("start"))}}
+			g.Decls = append([]rdecl{early}, g.Decls...)
+			h := func() rhandle {
+				return rhandle{IsRule: true, Rule: &rrule{LHS: "start", RHS: catE(ntE("start"), wrapE(xGroup, alts()), ntE("start"))}}
+			}
+			g.Decls = append(g.Decls, rdecl{Kind: "directive", Assoc: "@left", Handles: []rhandle{h()}}, rdecl{Kind: "directive", Assoc: "@right", Handles: []rhandle{h()}})
+			return
+		}
 		if v%2 == 0 {
 			appendToRule(firstRule(g, r), strE("hh"))
 			insertDecl(r, g, rdecl{Kind: "directive", Assoc: "@left", Handles: []rhandle{{Term: "hh", IsStr: true}}}, v)
